@@ -199,6 +199,18 @@ func main() {
 	os.Exit(code)
 }
 
+// knownKeysEnv lists the recorded known findings for the simulator, which
+// keeps them out of the clauses that mirror other properties' violations.
+func knownKeysEnv() string {
+	var ks []string
+	for _, k := range loadKnown() {
+		if k.Status != "fixed" {
+			ks = append(ks, k.Property+"/"+k.Clause+"/"+k.Shape)
+		}
+	}
+	return strings.Join(ks, ";")
+}
+
 func treeHash() string {
 	return filepath.Base(filepath.Dir(bin))
 }
@@ -217,7 +229,7 @@ func runWorker(env []string, id int) workerOut {
 	jp := filepath.Join(scratch, fmt.Sprintf("journal.%d", id))
 	cmd := exec.Command(bin, "-test.run", "^TestSim$", "-test.cpu", "1", "-test.timeout", "6h")
 	cmd.Env = append(os.Environ(), env...)
-	cmd.Env = append(cmd.Env, "SIM_OUT="+outp, "SIM_JOURNAL="+jp, "GOMAXPROCS=2")
+	cmd.Env = append(cmd.Env, "SIM_OUT="+outp, "SIM_JOURNAL="+jp, "GOMAXPROCS=2", "SIM_KNOWN="+knownKeysEnv())
 	var eb bytes.Buffer
 	cmd.Stderr = &eb
 	cmd.Stdout = &eb
